@@ -211,12 +211,15 @@ func (ft *fnTrans) run() {
 	ft.findLoops()
 	// preconditions
 	penv := ft.envAt(ft.entry, nil, nil)
+	entryPos := len(vc.lines)
+	var reqTerms []string
 	for _, r := range ft.fc.Requires {
 		t, err := penv.Bool(r.Expr)
 		if err != nil {
 			panic(specErr{fmt.Sprintf("requires %q: %v", r.Src, err)})
 		}
 		vc.assume(t)
+		reqTerms = append(reqTerms, t)
 	}
 	// modifies items (evaluated in the entry state)
 	ft.modItems = ft.evalModifies(ft.fc, penv)
@@ -236,6 +239,11 @@ func (ft *fnTrans) run() {
 	sort.Ints(hdrs)
 	for _, h := range hdrs {
 		ft.loopStep(ft.loops[h])
+	}
+	// candidate models of failed obligations can be run on the real code when the inputs are plain values
+	ft.buildReplayPlan(entryPos, reqTerms)
+	for _, ob := range vc.obls {
+		ob.plan = vc.replay
 	}
 }
 
